@@ -27,6 +27,7 @@ EXPLANATION = (
   ' (FIN-linenum) a line number n >= 0 (0 included) is the offset 100 n / N from the near edge and n < 0 the offset 100 + 100 n / N, evaluated for seven line numbers in both writing directions;'
   " (FIN-cref) in the tokenizer's two reference states the text handed to html.unescape includes the terminating semicolon, so &lrm; / &rlm; are decoded and an unknown reference stays as written;"
   ' (DEP-relative) the begin of a timestamp span is the timestamp minus the sum of the begins of all its ancestors (begins are parent-relative), so nested timestamps stay correct;'
+  ' (FIN-position) for every position, position alignment, size and writing direction of a grid the region stays inside the root container along the positioned axis (origin >= 0, origin + extent <= 100);'
 )
 RULE_TEXT = "per call site / function / enum / printed sample"
 UNDECIDED = ["cue-setting geometry (line numbers <= 0, position with size)", "tag scoping", "region sharing for equal settings"]
@@ -355,6 +356,63 @@ def check_timestamp_base(ctx):
             ": that begin is relative to its own parent, so a timestamp nested in another timestamp's span (`a<00:01.500>b<00:01.800>c`) gets a begin that is too late")
 
 
+def check_position_box(ctx):
+  """FIN-position: whatever `position`, position alignment and `size` a cue asks for, the region lies
+  inside the root container along the axis the position applies to: 0 <= origin, origin + extent <= 100,
+  extent >= 0 (WebVTT limits the size to what fits on the side(s) of the position).  The statements that
+  run when a position was parsed are evaluated on a grid of positions, sizes, alignments and both
+  writing directions."""
+  import itertools
+  from fractions import Fraction as F
+  from ..consteval import ConstEval, EnumMember
+  from ..rules import fineval
+  ix = ctx.ix
+  f = ix.func("ttconv.vtt.reader:_get_or_make_region")
+  ctx.unit(f.module)
+  # roles
+  ext = next((c for c in own_nodes(f.node) if isinstance(c, ast.Call) and unparse(c.func).endswith("ExtentType")), None)
+  org = next((c for c in own_nodes(f.node) if isinstance(c, ast.Call) and unparse(c.func).endswith("CoordinateType")), None)
+  if ext is None or org is None:
+    raise AnalysisError(f"{f.qualname}: the extent / origin construction was not found")
+
+  def var_of(call, kw):
+    v = next((k.value for k in call.keywords if k.arg == kw), None)
+    names = [n.id for n in ast.walk(v) if isinstance(n, ast.Name) and n.id != "styles"] if v is not None else []
+    return names[0] if names else None
+  ew, eh, ox, oy = var_of(ext, "width"), var_of(ext, "height"), var_of(org, "x"), var_of(org, "y")
+  if None in (ew, eh, ox, oy):
+    raise AnalysisError(f"{f.qualname}: the locals behind the region's extent and origin were not found")
+  blocks = [st for st in own_nodes(f.node) if isinstance(st, ast.If) and match.is_none_test(st.test, lambda x: isinstance(x, ast.Name)) is False
+            and any(isinstance(t, ast.Name) and t.id in (ox, oy) and isinstance(t.ctx, ast.Store) for t in ast.walk(st))
+            and any(isinstance(x, ast.Constant) and x.value == "line-left" for x in ast.walk(st))]
+  blocks = [b for b in blocks if not any(o is not b and any(x is o for x in ast.walk(b)) for o in blocks)]      # the innermost one
+  if len(blocks) != 1:
+    raise AnalysisError(f"{f.qualname}: the statements that apply a parsed position were not found")
+  blk = blocks[0]
+  pos = next(n.id for n in ast.walk(blk.test) if isinstance(n, ast.Name))
+  la = next((unparse(c.left) for c in ast.walk(blk) if isinstance(c, ast.Compare) and isinstance(c.comparators[0], ast.Constant) and c.comparators[0].value in ("center", "line-left", "line-right")), None)
+  wm = next((n.id for c in ast.walk(blk) if isinstance(c, ast.Compare) and "WritingModeType" in unparse(c) for n in ast.walk(c.left) if isinstance(n, ast.Name)), None)
+  if la is None or wm is None:
+    raise AnalysisError(f"{f.qualname}: the alignment / writing-mode locals of the position block were not found")
+  ce = ConstEval(ix)
+  modes = {m_: ce.ev(f.module, ast.parse(f"styles.WritingModeType.{m_}", mode="eval").body) for m_ in ("lrtb", "tbrl")}
+  wrong, n = [], 0
+  for p, size, al, m_ in itertools.product((0, 10, 50, 90, 100), (20, 95, 100), ("center", "line-left", "line-right"), ("lrtb", "tbrl")):
+    env = {pos: F(p), ew: F(95), eh: F(95), ox: F(5, 2), oy: F(5, 2), la: al, wm: modes[m_]}
+    env[ew if m_ == "lrtb" else eh] = F(size)
+    eff = fineval.collect(ix, f, blk.body, env, "__none__")
+    if eff.skipped:
+      raise AnalysisError(f"{f.qualname}: a test of the position block could not be evaluated ({eff.skipped[0]})")
+    o, e = (eff.env.get(ox), eff.env.get(ew)) if m_ == "lrtb" else (eff.env.get(oy), eff.env.get(eh))
+    n += 1
+    if not (isinstance(o, (int, F, float)) and isinstance(e, (int, F, float))):
+      raise AnalysisError(f"{f.qualname}: origin / extent after the position block are not numbers")
+    if o < 0 or e < 0 or o + e > 100 + F(1, 10**6):
+      wrong.append(f"position:{p}%,{al} size:{size}% ({m_}): origin {float(o):.1f}%, extent {float(e):.1f}%")
+  ctx.check(not wrong, "FIN-position", f"{f.qualname}|the positioned cue box lies inside the root container", ctx.where(f.module, blk), f"{n} combinations",
+            f"{len(wrong)} of {n} combinations leave the root container, e.g. " + "; ".join(wrong[:3]))
+
+
 def run(ctx):
   ix = ctx.ix
   nul.IMPLICATIONS.clear()
@@ -414,4 +472,5 @@ def run(ctx):
   check_line_numbers(ctx)
   check_cref_terminator(ctx)
   check_timestamp_base(ctx)
+  check_position_box(ctx)
   common.check_history_independence(ctx, ["ttconv.vtt.reader", "ttconv.vtt.tokenizer", "ttconv.utils"])
